@@ -16,7 +16,7 @@ import itertools
 import egsim  # noqa: F401
 from egsim import engine, gen
 from egsim.props.common import deep_tier
-from egsim.seams import InjectedFault
+from egsim.seams import InjectedFault, WarningsAsErrors
 from egsim.props.c17 import ARG_POOL, decode_arg
 from edgegraph.structure import singleton
 
@@ -155,6 +155,7 @@ class C18(engine.Property):
         "derived-metaclass-class-cleared-while-others-live",
         "factory-new-front-class-constructed",
         "global-clear-spelled-with-explicit-None",
+        "warnings-as-errors-during-the-call",
         "singleton-class-defined-in-mid-history",
         "class-defined-while-others-live",
     ]
@@ -173,6 +174,7 @@ class C18(engine.Property):
             "p_during": rng.choice([0.0, 0.0, 0.1, 0.3]),
             "p_init_fails": rng.choice([0.0, 0.0, 0.08, 0.2]),
             "p_define": rng.choice([0.0, 0.0, 0.05, 0.12]),
+            "p_w_error": rng.choice([0.0, 0.0, 0.2]),
         }
 
     def start(self, cfg):
@@ -205,6 +207,9 @@ class C18(engine.Property):
             "kwargs": kwargs,
             "new": st.namer.new("i"),
         }
+        if rng.random() < cfg.get("p_w_error", 0.0):
+            # the application runs with warnings turned into errors
+            op["w_error"] = True
         if rng.random() < cfg.get("p_init_fails", 0.0):
             op["init_fails"] = True
         elif rng.random() < cfg.get("p_during", 0.0):
@@ -288,8 +293,12 @@ class C18(engine.Property):
                 s["probe:user-code-during-construction:" + during["op"]] += 1
                 s["fault:reentrant-call-during-init"] += 1
                 st.hook["fn"] = lambda _self, d=during: self._nested(st, d)
+            if op.get("w_error"):
+                s["probe:warnings-as-errors-during-the-call"] += 1
+                s["fault:process-wide-setting-changed"] += 1
             try:
-                obj = klass(*args, **kwargs)
+                with WarningsAsErrors(bool(op.get("w_error"))):
+                    obj = klass(*args, **kwargs)
             except Exception as exc:  # pylint: disable=broad-except
                 st.hook["fn"] = None
                 return {"exc": type(exc).__name__}, engine.viol(
